@@ -233,8 +233,8 @@ def _detect_alleles_match(variant, entry, bam_read, ref_pos, query_pos, length):
         # Process remaining match-bases:
         ops_consumed = op_start
         allele_seq = variant.get_allele(i)
-        query_pos = query_start + a.matched + a.inserted
         while a.matched < a.match_target and ops_consumed < length:
+            query_pos = query_start + a.matched + a.inserted
             qbase = bam_read.query_sequence[query_pos]
             vbase = allele_seq[a.matched + a.inserted]
             if qbase == vbase:
